@@ -7,11 +7,12 @@ from harness import pipeline as PL, solver as S
 
 SPEC = {
     "gen": ["Rotations"],
-    "modules": ["DiffcalcProofs.Props.C05", "DiffcalcProofs.Props.C05Geo"],
+    "modules": ["DiffcalcProofs.Props.C05", "DiffcalcProofs.Props.C05Geo", "DiffcalcProofs.Props.C05Psi"],
     "theorems": {"DiffcalcProofs.Props.C05": [
         "C05.virtualAngles_scale_ref", "C05.virtualAngles_scale_surf", "C05.normalised_smul_pos", "C05.cos_ttheta_geometric",
         "C05.sin_beta_geometric", "C05.qaz_geometric"],
         "DiffcalcProofs.Props.C05Geo": ["C05.angleBetween_eq", "C05.betain_betaout_geometric"],
+        "DiffcalcProofs.Props.C05Psi": ["C05.sHat_geometric", "C05.psi_identities", "C05.calcPsi_geometric", "C05.kfHat_eq_kfOf", "C05.unit_eq_nOf", "C05.psi_geometric"],
         "DiffcalcProofs.Props.C11": ["C11.virtualAngles_total"]},
     "level": "proof",
     "rule": "random positions over (-180,180]^6 and multiples of 30/45/90 deg, random UB (triclinic / cubic / hexagonal), reference and surface vectors set in "
@@ -19,7 +20,8 @@ SPEC = {
             "the oracle recomputes all ten pseudo-angles from first-principles vectors (k_i, k_f, q, Z n, Z s) away from the poles, and requires them to be identical for "
             "every scaling of either vector in either frame; distinct = distinct (frames, scale, position regime)",
     "assumptions": ["poles (theta in {0,90}, tau in {0,180}, |alpha| = 90) are outside the quantifier and skipped by the oracle"],
-    "partial": "psi (eqs 25/28) and betain/betaout agree with their geometric definitions on every sampled position (oracle, 1e-9 deg) but that equality is not proved",
+    "partial": "psi (eqs 25/28) is proved equal to the geometric azimuth atan2(-n.s, -n.e) on the branch where qaz and naz are defined (psi_geometric); on the fallback branch "
+               "(naz undefined: reference along the beam axis) only |psi| is produced by the code and the equality is checked by the oracle; tau/alpha/naz read off the definitions directly",
 }
 
 
